@@ -115,6 +115,10 @@ func init() {
 			fr.i.assert(boolTerm(fr.i, a[0]), asStr(a[1]), "")
 			return nil
 		},
+		"vAssertNative": func(fr *frame, a []value) value {
+			fr.i.assert(boolTerm(fr.i, a[0]), asStr(a[2]), "")
+			return nil
+		},
 		"vKnown": func(fr *frame, a []value) value {
 			fr.i.assert(boolTerm(fr.i, a[1]), asStr(a[2]), asStr(a[0]))
 			return nil
